@@ -714,3 +714,60 @@ def one_term_rule(chk, src, rule):
                "bond operators and site matrices both stand for coefficient x term", line=fi.node.lineno,
                detail="the bond operators are what swap_site expands when two sites are exchanged: a coefficient kept only in the numeric tensors is lost by the first swap that touches the "
                       "last site: " + (probs[0] if probs else ""))
+
+
+def random_last_site_rule(chk, src, rule):
+    """Mps.random on one-site models (the loop over the inner sites is empty, what remains is the closing site): the entries of the last tensor that survive are exactly the local
+    states whose quantum numbers equal the requested total, component by component"""
+    MPSF = "renormalizer/mps/mps.py"
+    SVQ = "renormalizer/mps/svd_qn.py"
+    fi = src.func(MPSF, "Mps.random")
+    gm = src.func(SVQ, "get_qn_mask")
+    cases = [("one component", [[0], [1], [2]], [1]), ("two components, same sum in different sectors", [[0, 0], [1, 0], [0, 1], [1, 1]], [1, 0]),
+             ("two components, total (1, 1)", [[0, 0], [1, 0], [0, 1], [1, 1], [2, 0]], [1, 1])]
+    for name, sigmaqn, qntot in cases:
+        zeroed = []
+
+        class Rand(Sym):
+            """random tensor of the closing site: (1, local states, 1); masked assignment is recorded per local state"""
+            def __sub__(self, o):
+                return self
+
+            def __truediv__(self, o):
+                return self
+
+            __itruediv__ = __truediv__
+
+            def flatten(self):
+                return self
+
+            def __setitem__(self, k, v):
+                m = xnp.asx(k)
+                if v != 0 or not all(isinstance(x, bool) for x in m.flat) or m.size != len(sigmaqn):
+                    raise AnalysisError(f"last_mt[{k!r}] = {v!r}")
+                zeroed.extend(i for i, b in enumerate(m.flat) if b)
+        rnd = Sym("random", random=lambda shape: Rand("last site tensor", shape=tuple(shape)))
+        xpx = Sym("xp", random=rnd, linalg=Sym("linalg", norm=lambda x: 1))
+        npx = xnp.namespace()
+        npx.__dict__["random"] = rnd
+        new = Sym("mps", _cls="Mps", pbond_list=[len(sigmaqn)])
+        sites = []
+        new.__dict__["append"] = lambda t: sites.append(t)
+        new.__dict__["__len__"] = lambda: 1
+        model = Sym("model", nsite=1, qn_size=len(qntot), basis=[Sym("basis0", sigmaqn=xnp.XA(sigmaqn), nbas=len(sigmaqn))])
+        it = SymInterp(src, None, {"np": npx, "xp": xpx, "len": lambda x: 1 if x is new else len(x),
+                                   "add_outer": lambda a, b: xnp.XA([[x + y for x, y in zip(xnp.asx(a).tolist()[0], row)] for row in xnp.asx(b).tolist()]),
+                                   "get_qn_mask": lambda qnmat, tot: it.call_function(gm, [qnmat, tot]),
+                                   "isinstance": lambda x, t: isinstance(x, t) if isinstance(t, type) else (any(isinstance(x, tt) for tt in t if isinstance(tt, type)) if isinstance(t, tuple) else False)})
+        probs = []
+        try:
+            it.call_function(fi, [lambda: new, model, xnp.XA(qntot), 8])
+        except (SymRaise, IndexError, ValueError, TypeError) as e:
+            probs.append(f"{type(e).__name__}: {e}")
+        want = [i for i, q in enumerate(sigmaqn) if q != qntot]
+        if not probs and sorted(zeroed) != want:
+            keep = [sigmaqn[i] for i in range(len(sigmaqn)) if i not in zeroed]
+            probs.append(f"local states kept on the closing site: {keep}; the requested sector is {qntot}")
+        chk.ob(rule, f"Mps.random[one site, {name}]", not probs, fi.where, probs[:2] or "only the local states of the requested sector survive", f"kept: the states with quantum numbers {qntot}",
+               line=fi.node.lineno, detail="a random state handed out for a sector must have no amplitude in another sector, whatever the number of quantum-number components (equal sums of "
+                                           "the components are different sectors): " + (probs[0] if probs else ""))
